@@ -825,6 +825,7 @@ class ParametricSpectrum(Spectrum):
             if ar < 0:
                 raise errors.SpectrumARError
             self.__ar_order = ar
+            self.modified = True
     def _get_ar_order(self):
         return self.__ar_order
     ar_order = property(fget=_get_ar_order, fset=_set_ar_order, doc="")
@@ -836,6 +837,7 @@ class ParametricSpectrum(Spectrum):
             self.__ma_order = ma
         else:
             self.__ma_order = None
+        self.modified = True
     def _get_ma_order(self):
         return self.__ma_order
     ma_order = property(fget=_get_ma_order, fset=_set_ma_order, doc="")
